@@ -533,8 +533,8 @@ func (w *world) rpcClient() (*rpc.Client, error) {
 
 var endToEndHeaders = []string{"Content-Type", "X-Verif-Custom", "Authorization", "Origin", "Cookie", "User-Agent", "Accept"}
 
-func hdrString(h http.Header) string {
-	parts := []string{}
+func hdrString(h http.Header, host string) string {
+	parts := []string{"Host=" + host}
 	for _, k := range endToEndHeaders {
 		if v, ok := h[k]; ok {
 			parts = append(parts, k+"="+strings.Join(v, ","))
@@ -625,7 +625,7 @@ func (d *daemon) handle(rw http.ResponseWriter, r *http.Request) {
 		sent = []byte{}
 	}
 	d.mu.Lock()
-	d.calls = append(d.calls, dcall{Method: r.Method, URI: r.RequestURI, Body: digest(body), Hdrs: hdrString(r.Header),
+	d.calls = append(d.calls, dcall{Method: r.Method, URI: r.RequestURI, Body: digest(body), Hdrs: hdrString(r.Header, r.Host),
 		Pclass: classify(r.URL.Path)})
 	d.resps = append(d.resps, wireResp{Status: status, Body: digest(sent), Hdrs: respHdrString(h)})
 	d.mu.Unlock()
@@ -1015,6 +1015,21 @@ func (r *rig) concretise(q caseReq) concrete {
 	case "repo/gc":
 		opt("stream-errors", q.Streamerr)
 	}
+	// parameters that do not change what is asked for (defaults spelled out, output formatting)
+	if r.rng.Intn(3) == 0 {
+		extras := map[string][]kv{
+			"pin/add":    {{"encoding", "json"}, {"recursive", "true"}, {"progress", "false"}},
+			"pin/rm":     {{"encoding", "json"}, {"recursive", "true"}},
+			"pin/ls":     {{"encoding", "json"}, {"quiet", "false"}, {"stream", "false"}},
+			"pin/update": {{"encoding", "json"}},
+			"add":        {{"quiet", "true"}, {"progress", "false"}, {"stream-channels", "true"}, {"encoding", "json"}},
+			"repo/stat":  {{"size-only", "false"}, {"human", "false"}},
+			"repo/gc":    {{"quiet", "false"}, {"encoding", "json"}},
+		}[q.Route]
+		if len(extras) > 0 {
+			ps = append(ps, extras[r.rng.Intn(len(extras))])
+		}
+	}
 	c.query = r.encodeQuery(ps)
 	return c
 }
@@ -1097,7 +1112,7 @@ func (r *rig) runOnce(ci caseIn, c concrete) (traceRec, error) {
 	if r.rng.Intn(4) == 0 {
 		req.Header.Set("Accept", "application/json, */*;q=0.1")
 	}
-	sent := wireReq{Method: c.method, URI: u.RequestURI(), Body: digest(c.body), Hdrs: hdrString(req.Header)}
+	sent := wireReq{Method: c.method, URI: u.RequestURI(), Body: digest(c.body), Hdrs: hdrString(req.Header, req.Host)}
 
 	resp, err := r.client.Do(req)
 	if err != nil {
@@ -1110,6 +1125,12 @@ func (r *rig) runOnce(ci caseIn, c concrete) (traceRec, error) {
 			c.method, sent.URI, q.Bk, len(rb), rerr, resp.StatusCode, resp.ContentLength, resp.TransferEncoding)
 	}
 	trailer := resp.Trailer.Get("X-Stream-Error")
+	if c.method == http.MethodHead && resp.Header.Get("X-Verif-Daemon") == "" {
+		// A HEAD answered by the proxy itself has no body whose end would tell us
+		// that the handler returned: give it time to finish (add sleeps 100 ms
+		// before unpinning) so that its calls are attributed to this case.
+		time.Sleep(500 * time.Millisecond)
+	}
 
 	dcalls, dresps := r.d.take()
 	r.w.mu.Lock()
